@@ -52,6 +52,33 @@ Proof.
   - unfold bview; bsimp. rewrite LS. unfold slice. simpl skipn at 1. simpl firstn at 2. rewrite app_nil_l. list_eq.
 Qed.
 
+Lemma fresh_copy b n nc : buf_wf b -> bused b <= n ->
+  match buffer_set (set_tr (new_buf n false nc) (btr b)) (btr b) 0 (firstn (bused b) (bdata b)) with
+  | Ok nx' => bref nx' = 1 /\ bimm nx' = false /\ bnc nx' = nc /\ btr nx' = btr b /\ bview nx' = bview b /\
+              bused nx' = bused b /\ n <= bsize nx' /\ buf_wf nx'
+  | _ => False
+  end.
+Proof.
+  intros [L [U A]] Hn.
+  assert (WN : buf_wf (set_tr (new_buf n false nc) (btr b)))
+    by (apply buf_wf_set_tr_empty; [apply new_buf_wf|reflexivity]).
+  pose proof (buffer_set_sem _ (btr b) 0 (firstn (bused b) (bdata b)) WN) as S.
+  pose proof (alloc_size_ge n).
+  assert (LF : length (firstn (bused b) (bdata b)) = bused b) by (rewrite firstn_length; lia).
+  destruct (buffer_set _ _ 0 _) as [nx'| |] eqn:Eb.
+  - destruct S as [[K1 [K2 [K3 [K4 K5]]]] [W' [V _]]]. bsimp_in K1. bsimp_in K2. bsimp_in K3. bsimp_in K4. bsimp_in K5.
+    assert (V0 : bview nx' = bview b).
+    { rewrite V. unfold bview at 2. bsimp. simpl firstn at 1. apply put_nil_0. }
+    pose proof (bview_length _ W') as BL. rewrite V0 in BL. unfold bview in BL. rewrite LF in BL.
+    rewrite K5. repeat (split; [solve [auto | lia]|]). exact W'.
+  - unfold set_cond in S. rewrite LF in S. bsimp_in S.
+    rewrite (proj2 (Nat.leb_le _ _)) in S by lia. cbn [andb] in S.
+    destruct (Nat.eqb_spec (btr b) 0) as [T0|T0]; [discriminate|].
+    rewrite Nat.eqb_refl in S. cbn [negb andb] in S.
+    unfold aligned in S. rewrite Nat.mod_0_l, (A T0), Nat.eqb_refl in S by assumption. discriminate.
+  - assumption.
+Qed.
+
 (* what detach guarantees about the private buffer *)
 Definition private_copy (b b1 : buf) (len : nat) : Prop :=
   bref b1 = 1 /\ bimm b1 = false /\ bnc b1 = bnc b /\ btr b1 = btr b /\ bview b1 = bview b /\
@@ -60,8 +87,9 @@ Definition private_copy (b b1 : buf) (len : nat) : Prop :=
 Lemma detach_sem hp i b len : hget hp i = Some b -> buf_wf b -> 1 <= bref b ->
   (bused b <= len \/ (bref b = 1 /\ bimm b = false)) ->
   match detach hp i len with
-  | Ok (hp', j) => exists b1, hget hp' j = Some b1 /\ ptrans hp (Some i) hp' (Some j) /\ private_copy b b1 len
-  | Err _ => shared b = true /\ bnc b = true /\ bused b <> 0
+  | Ok (hp', j) => exists b1, hget hp' j = Some b1 /\ ptrans hp (Some i) hp' (Some j) /\ private_copy b b1 len /\
+                   (shared b && bnc b && negb (bused b =? 0)) = false
+  | Err _ => (shared b && bnc b && negb (bused b =? 0)) = true
   | Fault => False
   end.
 Proof.
@@ -87,9 +115,11 @@ Proof.
         -- rewrite <- (hunref_private hp i b E ltac:(lia)).
            replace (length hp) with (length hp + 0) by lia.
            apply (P_fresh hp (Some i) 0); [reflexivity|exact WN].
-        -- unfold private_copy. split; [reflexivity|]. split; [reflexivity|]. split; [reflexivity|].
+        -- split; [|unfold shared; rewrite (proj2 (Nat.leb_gt _ _)) by lia; reflexivity].
+           unfold private_copy. split; [reflexivity|]. split; [reflexivity|]. split; [reflexivity|].
            split; [reflexivity|]. split; [exact VN|]. split; [reflexivity|]. split; [bsimp; lia|exact WN].
       * exists b. split; [assumption|]. split; [apply P_same|].
+        split; [|unfold shared; rewrite (proj2 (Nat.leb_gt _ _)) by lia; reflexivity].
         unfold private_copy. repeat split; auto; lia.
     + (* too small: move *)
       cbn [andb]. destruct (Nat.leb_spec 2 (bref b)); [lia|].
@@ -103,54 +133,22 @@ Proof.
       -- rewrite <- (hunref_private hp i b E ltac:(lia)).
          replace (length hp) with (length hp + 0) by lia.
          apply (P_fresh hp (Some i) 0); [reflexivity|exact WN].
-      -- unfold private_copy. split; [reflexivity|]. split; [reflexivity|]. split; [reflexivity|].
+      -- split; [|unfold shared; rewrite (proj2 (Nat.leb_gt _ _)) by lia; reflexivity].
+         unfold private_copy. split; [reflexivity|]. split; [reflexivity|]. split; [reflexivity|].
          split; [reflexivity|]. split; [exact VN|]. split; [reflexivity|]. split; [bsimp; lia|exact WN].
   - (* shared *)
-    destruct (bnc b) eqn:Nc; cbn [andb].
-    + destruct (Nat.eqb_spec (bused b) 0) as [Z|Z]; cbn [negb].
-      2:{ unfold shared. rewrite (proj2 (Nat.leb_le _ _)) by lia. auto. }
-      rewrite (proj2 (Nat.leb_le 2 (bref b))) by lia.
-      rewrite Z. simpl firstn.
-      pose proof (buffer_set_sem (set_tr (new_buf len' false true) (btr b)) (btr b) 0 []
-                    (buf_wf_set_tr_empty _ _ (new_buf_wf _ _ _) eq_refl)) as S.
-      destruct (buffer_set _ _ 0 []) as [nx'| |] eqn:Eb.
-      * destruct S as [K [W' [V _]]]. destruct K as [K1 [K2 [K3 [K4 K5]]]]. cbn in K1, K2, K3, K4, K5.
-        exists nx'. split; [|split].
-        -- rewrite hget_app_r by (rewrite length_hset; lia). rewrite length_hset, Nat.sub_diag. reflexivity.
-        -- rewrite <- (hunref_shared hp i b E ltac:(lia)).
-           replace (length hp) with (length hp + 0) by lia.
-           apply (P_fresh hp (Some i) 0); assumption.
-        -- unfold private_copy. rewrite V. cbn. unfold bview at 2. rewrite Z. simpl firstn.
-           pose proof (alloc_size_ge len').
-           pose proof (bview_length _ W') as BL. rewrite V in BL. cbn in BL.
-           repeat split; auto; try lia.
-      * exfalso. unfold set_cond in S. cbn in S.
-        destruct (Nat.eqb_spec (btr b) 0) as [T0|T0]; cbn in S; [discriminate|].
-        unfold aligned in S. rewrite Nat.mod_0_l, Nat.eqb_refl in S by assumption. discriminate.
-      * assumption.
-    + rewrite (proj2 (Nat.leb_le 2 (bref b))) by lia.
-      assert (Hu : bused b <= len) by (destruct Pre as [?|[? _]]; lia).
-      assert (WN : buf_wf (set_tr (new_buf len' false false) (btr b)))
-        by (apply buf_wf_set_tr_empty; [apply new_buf_wf|reflexivity]).
-      pose proof (buffer_set_sem _ (btr b) 0 (firstn (bused b) (bdata b)) WN) as S.
-      pose proof (alloc_size_ge len').
-      assert (LF : length (firstn (bused b) (bdata b)) = bused b) by (rewrite firstn_length; lia).
-      destruct (buffer_set _ _ 0 _) as [nx'| |] eqn:Eb.
-      * destruct S as [K [W' [V _]]]. destruct K as [K1 [K2 [K3 [K4 K5]]]]. cbn in K1, K2, K3, K4, K5.
-        exists nx'. split; [|split].
-        -- rewrite hget_app_r by (rewrite length_hset; lia). rewrite length_hset, Nat.sub_diag. reflexivity.
-        -- rewrite <- (hunref_shared hp i b E ltac:(lia)).
-           replace (length hp) with (length hp + 0) by lia.
-           apply (P_fresh hp (Some i) 0); assumption.
-        -- unfold private_copy. rewrite V. cbn [bview new_buf set_tr bused bdata]. simpl firstn at 1.
-           rewrite put_nil_0.
-           pose proof (bview_length _ W') as BL. rewrite V in BL. cbn [bview new_buf set_tr bused bdata] in BL.
-           simpl firstn at 1 in BL. rewrite put_nil_0 in BL.
-           repeat split; auto; try lia.
-      * exfalso. unfold set_cond in S. rewrite LF in S. cbn [bsize new_buf set_tr btr] in S.
-        rewrite (proj2 (Nat.leb_le _ _)) in S by lia. cbn [andb] in S.
-        destruct (Nat.eqb_spec (btr b) 0) as [T0|T0]; [rewrite T0 in S; discriminate|].
-        rewrite (proj2 (Nat.eqb_neq _ _) T0), Nat.eqb_refl in S. cbn [negb andb] in S.
-        unfold aligned in S. rewrite Nat.mod_0_l, (A T0), Nat.eqb_refl in S by assumption. discriminate.
-      * assumption.
+    destruct (bnc b && negb (bused b =? 0)) eqn:Blk.
+    { unfold shared. rewrite (proj2 (Nat.leb_le _ _)) by lia. rewrite <- andb_assoc. exact Blk. }
+    rewrite (proj2 (Nat.leb_le 2 (bref b))) by lia.
+    assert (Hu : bused b <= len') by (destruct Pre as [?|[? _]]; lia).
+    pose proof (fresh_copy b len' (bnc b) (conj L (conj U A)) Hu) as F.
+    destruct (buffer_set _ _ 0 _) as [nx'| |]; try contradiction.
+    destruct F as [F1 [F2 [F3 [F4 [F5 [F6 [F7 F8]]]]]]].
+    exists nx'. split; [|split].
+    + rewrite hget_app_r by (rewrite length_hset; lia). rewrite length_hset, Nat.sub_diag. reflexivity.
+    + rewrite <- (hunref_shared hp i b E ltac:(lia)).
+      replace (length hp) with (length hp + 0) by lia.
+      apply (P_fresh hp (Some i) 0); assumption.
+    + split; [|unfold shared; rewrite (proj2 (Nat.leb_le _ _)) by lia; rewrite <- andb_assoc; exact Blk].
+      unfold private_copy. repeat (split; [solve [auto | lia]|]). assumption.
 Qed.
